@@ -503,6 +503,7 @@ func report(root, prop, tier string, seed int, cfg *PropConfig, runs []*unitRun,
 	var undecidedNew, unclaimed []string
 	discharged := 0
 	claimed := 0
+	var missing []string
 	var claimedIDs []string
 	for id := range baseline {
 		claimedIDs = append(claimedIDs, id)
@@ -515,7 +516,11 @@ func report(root, prop, tier string, seed int, cfg *PropConfig, runs []*unitRun,
 		if !ok {
 			// contract-clause obligations must exist; generated safety obligations may disappear with the code
 			if isClauseObl(id) {
-				toolErrs = append(toolErrs, "claimed obligation no longer generated (function renamed, clause not applicable, or paths aborted): "+id)
+				// The contract no longer applies to the code (the clause cannot be evaluated any more, the
+				// function is gone, every path aborts): the obligation is not discharged.  It is reported as a
+				// violation when the replay driver of that obligation shows a failure on the real code,
+				// otherwise as a tool error (undecided; exit 2).
+				missing = append(missing, id)
 			} else {
 				claimed--
 			}
@@ -596,6 +601,18 @@ func report(root, prop, tier string, seed int, cfg *PropConfig, runs []*unitRun,
 		fmt.Printf("VIOLATION property=%s replay=%s%s\n", prop, path, suffix)
 		fmt.Printf("  failed obligation: %s\n", id)
 		code = 1
+	}
+	for _, id := range missing {
+		or := &OblResult{ID: id, Kind: "missing", Status: "not generated"}
+		path, reproduced := writeReplay(root, replayDir, prop, or, cfg)
+		if reproduced {
+			fmt.Printf("VIOLATION property=%s replay=%s\n", prop, path)
+			fmt.Printf("  failed obligation (its contract clause no longer applies to the code; failure reproduced on the real code): %s\n", id)
+			violations = append(violations, id)
+			code = 1
+		} else {
+			toolErrs = append(toolErrs, "claimed obligation no longer generated (function renamed, clause not applicable, or paths aborted): "+id)
+		}
 	}
 	// new failing obligations (not claimed, not known-undecided at the last rebase): a violation only if
 	// the replay driver reproduces a failure on the real code; otherwise logged as undecided-new
